@@ -302,11 +302,11 @@ func c13BlobLens(w int) []int {
 func c13Direct(c *core.Ctx, slot *int) {
 	t := &c13Tally{cells: map[string]int64{}}
 	hashed := 0
-	extras := c.N(3, 40)
+	extras := c.N(3, 120)
 	// declared lengths around the 255/256 prefix-width boundary get many more random payloads
 	near := func(declared int) int {
 		if declared <= 600 {
-			return c.N(40, 400)
+			return c.N(40, 1200)
 		}
 		return 0
 	}
@@ -319,7 +319,7 @@ func c13Direct(c *core.Ctx, slot *int) {
 		}
 	}
 	c.ExhaustiveDomain("VARCHAR (15) and VAR_STRING (253): every declared maximum 0..65535 x actual lengths {0,1,255,256,max} (those <= max)")
-	extras = c.N(4, 100)
+	extras = c.N(4, 300)
 	for n := 0; n < 1024; n++ {
 		if c.Mine(*slot) {
 			c13Declared(c, t, ev.TString, gen.StringMeta(ev.TString, n), n, extras+near(n), &hashed)
@@ -328,7 +328,7 @@ func c13Direct(c *core.Ctx, slot *int) {
 	}
 	c.ExhaustiveDomain("CHAR/BINARY as TypeString (254): every declared length 0..1023 (metadata packed as real_type ^ ((len & 0x300) >> 4), len & 0xff) x actual lengths {0,1,255,256,max} (those <= max)")
 	// blob family and GEOMETRY: 1..4 length bytes
-	nrand := c.N(2000, 30000)
+	nrand := c.N(2000, 100000)
 	for _, typ := range c13BlobTypes {
 		for w := 1; w <= 4; w++ {
 			r := c.Rng(core.StrID("c13blob"), uint64(typ), uint64(w))
@@ -794,7 +794,7 @@ func c13Scenarios(c *core.Ctx) []c13Scn {
 func c13Check(c *core.Ctx) {
 	c.SetRule("Part 1 (direct CellBytes): for VARCHAR (15) and VAR_STRING (253) every declared maximum 0..65535, for CHAR/BINARY (TypeString) every declared length 0..1023, for TINY/MEDIUM/LONG/BLOB and GEOMETRY every length-byte count 1..4: " +
 		"payloads of the lengths {0,1,255,256,declared max} (blob family: {0,1,255,256,257,65535,65536,65537,70001,131069..131072,196607,262143} and, for 3/4 length bytes, 2^24-1, 2^24, 2^24+1) that the declaration allows, plus random lengths " +
-		"(quick 3 / thorough 40 per declared VARCHAR maximum, 4 / 100 per CHAR length, another 40 / 400 for every declared length <= 600, 2000 / 30000 per blob type and width), content classes {random bytes, all 0x00, all 0xFF, valid UTF-8 with 1..4-byte characters, invalid UTF-8}, " +
+		"(quick 3 / thorough 120 per declared VARCHAR maximum, 4 / 300 per CHAR length, another 40 / 1200 for every declared length <= 600, 2000 / 100000 per blob type and width), content classes {random bytes, all 0x00, all 0xFF, valid UTF-8 with 1..4-byte characters, invalid UTF-8}, " +
 		"the cell placed after 0..16 filler bytes and before 0..8 filler bytes. Required: returned bytes == payload, non-nil also for length 0, consumed == prefix width + length, prefix width 2 iff declared > 255 (blob family: the metadata value). " +
 		"JSON is left to C14. A direct case is (type, metadata, length, content class, filler seed); every one counts as non-trivial (length 0 is a required class). " +
 		"Part 2 (end to end): for tables of 1..17 columns (first column the id; and a variant without id column) whose other columns are VARCHAR/VAR_STRING/CHAR/blob/GEOMETRY with 1-, 2-, 3- and 4-byte prefixes, a history of an insert, an update and a delete transaction " +
